@@ -319,7 +319,10 @@ class Parser:
         # for macros without arguments, even if known: skip space that directly
         # follows in the text, but do not cross the marks of an enclosing
         # macro expansion (then, space behind the closing brace is kept)
-        while type(tok_next) in (defs.SpaceToken, defs.CommentToken):
+        # - as in TeX, only for a control word: space behind a control symbol
+        #   like \/ is kept
+        while (type(tok_next) in (defs.SpaceToken, defs.CommentToken)
+                    and self.parms.macro_character(tok.txt[-1])):
             tok_next = buf.next()
         if tok.txt not in self.the_macros:
             if not (math or tok.txt in self.unknowns):
